@@ -20,6 +20,7 @@ fn faults_for(kind: u8) -> Vec<Act> {
         // tail of the first transmission
         v.push(Act::RefragTailLost(if kind == 11 { 100 } else { 9 }));
         v.push(Act::RefragEvery3(if kind == 11 { 77 } else { 5 }));
+        v.push(Act::RefragOverlap(if kind == 11 { 60 } else { 7 }));
     }
     match kind { 2 | 12 | 16 => { v.push(Act::Fragment(20)); v.push(Act::FragDupMid(15)); v.push(Act::FragReorder(15)); }
         11 => { v.push(Act::Fragment(100)); v.push(Act::Fragment(1)); v.push(Act::FragDupMid(90)); v.push(Act::FragReorder(90)); } 1 => { v.push(Act::Fragment(40)); v.push(Act::FragDupMid(20)); }, _ => {} }
